@@ -1,6 +1,6 @@
 from vlib.e3_driver import collect
 
-TECHNIQUE = 'z3 over the generated chain sources of real bound routes: event trace (z3 Seq) and outcome for ALL behaviour vectors of the user functions (ite-merged) must equal an independently defined onion; validated against real executions'
+TECHNIQUE = 'z3 over the generated chain sources of real bound routes: event trace (z3 Seq) and outcome for ALL behaviour vectors of the user functions (ite-merged) must equal an independently defined onion; validated against real executions; plus CrossHair/z3 case splits over middleware-list configurations (levels, unique/non-unique/subclass/same-named/callable-object kinds) executed on the real merge and chains'
 LEVEL = 'model_checking'
 ENGINE = 'E3'
 
